@@ -95,9 +95,7 @@ def check_iter(ctx: Context, rep, rule: str, funcs: list[FunctionInfo]) -> None:
                    f"iter() binding: {bool(iter_binds)}",
                    message=f"`{v}` must be made a single iterator before it "
                    "is consumed piecewise")
-    if n < 6 and not rep.violations:
-        raise AnalysisError(f"{rule}: {n} piecewise-consumed variables found, "
-                            "floor 6")
+    rep.floor(rule, n, 6, "piecewise-consumed variables")
 
 
 def check_zip(ctx: Context, rep, rule: str, funcs) -> None:
@@ -122,8 +120,7 @@ def check_zip(ctx: Context, rep, rule: str, funcs) -> None:
             rep.ob(rule, ranges[0] == 0, loc=fn.loc(c), where=fn.qualname,
                    construct=short(c, 80),
                    message="the bound must be the first argument of zip")
-    if n < 3 and not rep.violations:
-        raise AnalysisError(f"{rule}: {n} bounded prefill zips, floor 3")
+    rep.floor(rule, n, 3, "bounded prefill zips")
 
 
 def check_borrow(ctx: Context, rep, rule: str, funcs) -> None:
